@@ -275,14 +275,23 @@ def _on_alarm(*_: Any) -> None:
 	raise _Timeout()
 
 
+TIMEOUTS = {'count': 0}
+
+
 def guarded(fn: Any, *args: Any, seconds: float = 5.0) -> Any:
-	"""Run a real helper with a wall-clock guard: a loop that no longer terminates becomes the observable 'Timeout'."""
+	"""Run a real helper with a wall-clock guard: a loop that no longer terminates becomes the observable 'Timeout'.
+	The helpers take microseconds on these inputs, so 5 s (CPU-independent slack for a loaded machine) can only be reached by a
+	call that does not return. After 20 such calls the tree is known to hang (each one is already a disagreement or a finding);
+	the budget drops to 0.5 s so that the whole check still ends in bounded time."""
 	import signal
+	if TIMEOUTS['count'] >= 20:
+		seconds = min(seconds, 0.5)
 	old = signal.signal(signal.SIGALRM, _on_alarm)
 	signal.setitimer(signal.ITIMER_REAL, seconds)
 	try:
 		return fn(*args)
 	except _Timeout:
+		TIMEOUTS['count'] += 1
 		raise TimeoutError('real helper did not return') from None
 	finally:
 		signal.setitimer(signal.ITIMER_REAL, 0)
@@ -326,6 +335,13 @@ def _real_op(op: list[str]) -> str:
 		if k == 'param':
 			p = CppViewHelper.Param.parse(op[1])
 			return f'ok {hx(p.var_type)} {hx(p.symbol)} {hx(p.default_value)}'
+		if k == 'iql':
+			from rogw.tranp.lang.string import is_quoted_literal
+			return f"ok {'true' if is_quoted_literal(op[1], op[2]) else 'false'}"
+		if k == 'vorigin':
+			return f"ok {hx(CppViewHelper.Param(op[1], 'n', '').var_type_origin)}"
+		if k == 'format':
+			return f'ok {hx(B.parse_to_formatter(op[1], op[2], op[3]).format())}'
 		if k in CALLER_OPS:
 			return real_caller(op)
 		raise AssertionError(op)
@@ -521,7 +537,9 @@ def deco_text(rng: random.Random, mode: str, i: int) -> tuple[str, str, list[tup
 			value = f'lambda a=1: {value}' if rng.random() < 0.2 else f'{value}{op}{right}'
 		args.append((label, value))
 	sep = ', ' if rng.random() < 0.8 else ','
-	joined = sep.join(v if l is None else f'{l}={v}' for l, v in args)
+	# blanks around the label's `=` are insignificant (`prefix = true`, `k =1`): mostly the compact form, often not
+	assign = rng.choice(['=', '=', '=', '=', ' = ', ' = ', ' =', '= ', '  =  ', '\t=', '=\t', '\t= '])
+	joined = sep.join(v if l is None else f'{l}{assign}{v}' for l, v in args)
 	return f'{path}({joined})', path, args
 
 
@@ -670,6 +688,188 @@ def stream_dictlike(ctx: Ctx, n: int) -> Stream:
 		'strings; parse_pair / parse (with and without delimiter) / parse_bracket / _analyze_entry at random positions, also with another bracket kind')
 	st.note += ''.join(f'; {x}' for x in notes)
 	return st
+
+
+# ---------------------------------------------------------------------------------------------
+# the text helpers beside the scanners: is_quoted_literal, Param.var_type_origin, parse_to_formatter().format()  (ASCII only)
+
+
+def gen_quoted(rng: random.Random) -> tuple[str, str]:
+	"""→ (string, quote): mostly quote + body + quote with quotes and backslashes in the body, sometimes damaged"""
+	q = rng.choice(['"', '"', "'", "'", '"""', 'ab', '']) if rng.random() < 0.25 else rng.choice(['"', "'"])
+	alpha = 'ab ' + '\\' * 2 + (q[:1] or '"') * 3 + '"\''
+	body = ''.join(rng.choice(alpha) for _ in range(rng.randint(0, 7)))
+	r = rng.random()
+	if r < 0.7:
+		text = q + body + q
+	elif r < 0.8:
+		text = q + body
+	elif r < 0.88:
+		text = body + q
+	elif r < 0.94:
+		text = q
+	else:
+		text = body
+	return text, q
+
+
+def quoted_spec(text: str, q: str) -> bool:
+	"""is_quoted_literal for a non-empty quote: starts and ends with it, and every occurrence of the quote that lies strictly inside
+	(behind the first character, in front of the last) stands behind a backslash"""
+	if not (text.startswith(q) and text.endswith(q)):
+		return False
+	return all(text[p - 1] == '\\' for p in range(1, len(text) - len(q)) if text.startswith(q, p))
+
+
+def gen_var_type(rng: random.Random) -> tuple[str, str, str]:
+	"""→ (var_type text, base name, shape): [const ␠+] base [<…>] [*|&]"""
+	base = rng.choice(['int', 'T', 'std::string', 'Box::Item', 'const', 'constant', 'a_b', 'std::map', 'x1', ''.join(rng.choice(IDENT + ':') for _ in range(rng.randint(1, 6)))])
+	cst = rng.choice(['', '', 'const ', 'const  ', 'const \t'])
+	targs = ''
+	if rng.random() < 0.5:
+		targs = '<' + render(gen_items(rng, rng.randint(0, 2), 'clean', 3, 0.3)).replace('é', 'e') + '>'
+		if rng.random() < 0.15:
+			targs += rng.choice(['::type', ' const', '::value_type'])
+	ptr = rng.choice(['', '', '*', '&'])
+	return cst + base + targs + ptr, base, f"{'const ' if cst else ''}base{'<>' if targs else ''}{ptr}"
+
+
+def gen_var_type_raw(rng: random.Random) -> str:
+	return ''.join(rng.choice(['const', ' ', ' ', '*', '&', '<', '>', ':', 'a', 'b_', '1', '\t', ',', 'int', 'std::']) for _ in range(rng.randint(0, 6)))
+
+
+def gen_canonical_dict(rng: random.Random, b: str, d: str, depth: int, mode: str, gaps: list[str]) -> tuple[str, str]:
+	"""→ (text as written, canonical text): `b[0] piece d␠ piece … b[1]` with blank-free pieces and nested `name{…}` blocks; the
+	written form puts one of `gaps` behind each delimiter, the canonical form exactly one blank"""
+	written, canon = [], []
+	for _ in range(rng.randint(0, 4)):
+		if depth > 0 and rng.random() < 0.3:
+			name = gen_tight(rng, b, mode) if rng.random() < 0.5 else ''
+			w, c = gen_canonical_dict(rng, b, d, depth - 1, mode, gaps)
+			written.append(name + w)
+			canon.append(name + c)
+		else:
+			t = gen_tight(rng, b, mode)
+			written.append(t)
+			canon.append(t)
+	text = b[0]
+	for j, w in enumerate(written):
+		text += w + (d + rng.choice(gaps) if j + 1 < len(written) else '')
+	return text + b[1], b[0] + (d + ' ').join(canon) + b[1]
+
+
+def ascii_only(text: str) -> str:
+	return ''.join(c if ord(c) < 128 else 'e' for c in text)
+
+
+def stream_view(ctx: Ctx, n: int) -> Stream:
+	rng = ctx.sub_rng('block-view')
+	cases = []
+	notes: list[str] = []
+	for i in budgeted(n, ctx.scale(60, 900), notes):
+		ops: list[list[str]] = []
+		for _ in range(3):
+			text, q = gen_quoted(rng)
+			ops.append(['iql', text, q])
+		ops.append(['iql', ascii_only(gen_malformed(rng, i)), rng.choice(['"', "'"])])
+		for _ in range(2):
+			ops.append(['vorigin', gen_var_type(rng)[0]])
+		ops.append(['vorigin', gen_var_type_raw(rng)])
+		b = rng.choice(BRACKETS)
+		d = rng.choice([':', ',', ':,', ''])
+		mode = 'clean' if i % 3 else 'dirty'
+		written, _ = gen_canonical_dict(rng, b, d or ',', 1 + i % 3, mode, [' ', ' ', '', '  ', '\n\t'])
+		name = ''.join(rng.choice(IDENT[:7]) for _ in range(rng.randint(0, 3)))
+		ops.append(['format', ascii_only(name + written), b, d])
+		frag = ascii_only(render(gen_fragment(rng, mode, i)) if i % 2 else gen_malformed(rng, i))
+		ops.append(['format', frag, rng.choice(BRACKETS), rng.choice([',', ':', ':,', ''])])
+		if i % 7 == 0:
+			ops.append(['format', frag, rng.choice(['', '(', '""', '(]', 'ab', '<']), ','])
+		lines = [op_line(op) for op in ops]
+		real = [real_op(op) for op in ops]
+		cases.append(({'kind': mode}, lines, real))
+	st = common.correspond('block-view', cases, 'block', classify=lambda d: d['kind'])
+	st.note = ('is_quoted_literal (quoted texts with quotes/backslashes inside, damaged ones, multi-character and empty quotes), Param.var_type_origin '
+		'([const] base [<…>] [*|&] and raw texts; the regular expression is the generated term), parse_to_formatter(…).format() on dict-like texts, '
+		'fragments and malformed texts; ASCII only')
+	st.note += ''.join(f'; {x}' for x in notes)
+	return st
+
+
+def search_view(ctx: Ctx) -> SearchResult:
+	from rogw.tranp.implements.cpp.view.cpp_view_helper import CppViewHelper
+	from rogw.tranp.lang.string import is_quoted_literal
+	B = _bp()
+	rng = ctx.sub_rng('law-view')
+	res = SearchResult('is_quoted_literal = starts and ends with the quote and every inner quote is escaped; Param.var_type_origin([const] base [<…>] [*|&]) = base; '
+		'parse_to_formatter(text).format() = the text with exactly one blank behind every delimiter (dict-like texts with blank-free pieces, structure-side oracle)')
+	hist: dict[str, int] = {}
+	seen: set[str] = set()
+	notes: list[str] = []
+
+	def count(k: str) -> None:
+		hist[k] = hist.get(k, 0) + 1
+
+	fixed_q = [('"a"', '"', True), ('"a"b"', '"', False), ('"a\\"b"', '"', True), ("'it''s'", "'", False), ('"', '"', True), ('', '"', False), ('"a', '"', False), ("'a\\\\'", "'", True)]
+	for text, q, want in fixed_q:
+		res.cases += 1
+		try:
+			got: Any = guarded(is_quoted_literal, text, q)
+		except Exception as e:  # noqa: BLE001
+			got = exc_enum(e)
+		if got is not want:
+			res.findings.append(Finding(key='quoted:differs', what=f'is_quoted_literal({text!r}, {q!r}) = {got!r}, expected {want!r}', replay={'string': text, 'quote': q, 'witness': True}))
+	for text, want_o in [('const int&', 'int'), ('int*', 'int'), ('std::map<std::string, int>', 'std::map'), ('const  Box::Item&', 'Box::Item'), ('Box<int>&', 'Box'), ('int', 'int')]:
+		res.cases += 1
+		try:
+			got = guarded(lambda t=text: CppViewHelper.Param(t, 'n', '').var_type_origin)
+		except Exception as e:  # noqa: BLE001
+			got = exc_enum(e)
+		if got != want_o:
+			res.findings.append(Finding(key='var_type_origin:differs', what=f'Param({text!r}, …).var_type_origin = {got!r}, expected {want_o!r}', replay={'var_type': text, 'witness': True}))
+	for i in budgeted(ctx.scale(8000, 80000), ctx.scale(30, 400), notes):
+		text, q = gen_quoted(rng)
+		if q:
+			res.cases += 1
+			seen.add(f'q{q}{text}')
+			want = quoted_spec(text, q)
+			try:
+				got = guarded(is_quoted_literal, text, q)
+			except Exception as e:  # noqa: BLE001
+				got = exc_enum(e)
+			count(f'quoted {want}')
+			if got is not want:
+				res.findings.append(Finding(key='quoted:differs', what=f'is_quoted_literal({text!r}, {q!r}) = {got!r}, expected {want!r}', replay={'string': text, 'quote': q}))
+		vt, base, shape = gen_var_type(rng)
+		res.cases += 1
+		seen.add(f'v{vt}')
+		count(f'var_type {shape}')
+		try:
+			got = guarded(lambda t=vt: CppViewHelper.Param(t, 'n', '').var_type_origin)
+		except Exception as e:  # noqa: BLE001
+			got = exc_enum(e)
+		if got != base:
+			res.findings.append(Finding(key='var_type_origin:differs', what=f'Param({vt!r}, …).var_type_origin = {got!r}, the base type is {base!r}', replay={'var_type': vt}))
+		b = rng.choice(BRACKETS)
+		d = rng.choice([':', ','])
+		mode = 'clean' if i % 3 else 'dirty'
+		written, canon = gen_canonical_dict(rng, b, d, 1 + i % 3, mode, [' '] if i % 2 else [' ', '', '  ', ' \t'])
+		name = ''.join(rng.choice(IDENT[:7]) for _ in range(rng.randint(0, 3)))
+		res.cases += 1
+		seen.add(f'f{b}{d}{name}{written}')
+		count('format canonical' if i % 2 else 'format loose')
+		try:
+			got = guarded(lambda: B.parse_to_formatter(name + written, b, d).format())
+		except Exception as e:  # noqa: BLE001
+			got = exc_enum(e)
+		if got != name + canon:
+			res.findings.append(Finding(key='format:differs', what=f'parse_to_formatter({name + written!r}, {b!r}, {d!r}).format() = {got!r}, expected {name + canon!r}', replay={'text': name + written, 'brackets': b, 'separator': d}))
+		elif len(res.samples) < 2 and len(canon) > 12:
+			res.samples.append({'text': name + written, 'format': got})
+	res.note = '; '.join(notes)
+	res.distinct = len(seen)
+	res.histogram = hist
+	return res
 
 
 def search_callers(ctx: Ctx) -> SearchResult:
@@ -939,8 +1139,13 @@ def check_decorator(text: str, path: str, args: list[tuple[str | None, str]]) ->
 	if got_path != path or got_join != join_args:
 		return 'decorator:path-or-join_args', f'DecoratorHelper({text!r}): path {got_path!r}, join_args {got_join!r}'
 	expected = {(str(i) if l is None else l): v for i, (l, v) in enumerate(args)}
-	if list(got_args.items()) == list(expected.items()):
-		return None
+	# label and value up to surrounding blanks (`label = value` keeps the blanks next to the `=` in the stored texts)
+	try:
+		norm = [(k.strip(), v.strip()) for k, v in got_args.items()]
+	except Exception as e:  # noqa: BLE001
+		return 'decorator:exception', f'DecoratorHelper({text!r}).args = {got_args!r}: {exc_enum(e)}'
+	if norm == [(k.strip(), v.strip()) for k, v in expected.items()]:
+		return check_decorator_accessors(text, path, args)
 	if len(got_args) < len(args) and any(any(c in SPECIAL for c in body) for body in string_bodies(join_args)):
 		key = 'decorator:bracket-or-quote-in-string-merges-arguments'
 	elif any(l is not None and any(c == '=' and t for c, t in zip(v, scan(v)[1])) for l, v in args):
@@ -950,6 +1155,38 @@ def check_decorator(text: str, path: str, args: list[tuple[str | None, str]]) ->
 	else:
 		key = 'decorator:arguments-differ'
 	return key, f'DecoratorHelper({text!r}).args = {got_args!r}, the arguments are {expected!r}'
+
+
+def check_decorator_accessors(text: str, path: str, args: list[tuple[str | None, str]]) -> tuple[str, str] | None:
+	"""the public face of the same decomposition on a fresh helper object (lazy `_props`, read in a varying order): path / join_args /
+	args / arg / arg_at(i) / arg_by(label) give the generated parts, repeated reads agree"""
+	from rogw.tranp.view.helper.decorator import DecoratorHelper
+	h = DecoratorHelper(text)
+	join_args = text[len(path) + 1:-1]
+	order = len(text) % 3
+	try:
+		def read() -> Any:
+			if order == 0:
+				return (h.path, h.join_args, dict(h.args))
+			if order == 1:
+				a = dict(h.args)
+				return (h.path, h.join_args, a)
+			j = h.join_args
+			return (h.path, j, dict(h.args))
+		first = guarded(read)
+		second = guarded(read)
+		values = [guarded(h.arg_at, i).strip() for i in range(len(args))]
+		by = {l: guarded(h.arg_by, k).strip() for l in [l for l, _ in args if l is not None] for k in h.args if k.strip() == l}
+		head = guarded(lambda: h.arg).strip() if args else None
+	except Exception as e:  # noqa: BLE001
+		return 'decorator:accessor-exception', f'DecoratorHelper({text!r}) path/args/arg_at/arg_by raises {exc_enum(e)}'
+	if first != second or first[0] != path or first[1] != join_args:
+		return 'decorator:accessors-differ', f'DecoratorHelper({text!r}): (path, join_args, args) read twice = {first!r} / {second!r}, expected path {path!r}, join_args {join_args!r}'
+	want_by = {l: v for l, v in args if l is not None}
+	want_by = {l: v.strip() for l, v in want_by.items()}
+	if values != [v.strip() for _, v in args] or by != want_by or (args and head != args[0][1].strip()):
+		return 'decorator:accessors-differ', f'DecoratorHelper({text!r}): arg_at = {values!r}, arg_by = {by!r}, arg = {head!r}; the arguments are {args!r}'
+	return None
 
 
 def string_bodies(text: str) -> list[str]:
@@ -981,6 +1218,8 @@ def search_decorator(ctx: Ctx) -> SearchResult:
 		('a.b(cond=x==y)', 'a.b', [('cond', 'x==y')]),
 		('f(key=lambda a=1: a, z)', 'f', [('key', 'lambda a=1: a'), (None, 'z')]),
 		('f(ok=g(k=1)!=h("="))', 'f', [('ok', 'g(k=1)!=h("=")')]),
+		('Embed.alias("a", prefix = true)', 'Embed.alias', [(None, '"a"'), ('prefix', 'true')]),
+		('f(k =1, m= [2, 3])', 'f', [('k', '1'), ('m', '[2, 3]')]),
 	]
 	for text, path, args in witnesses:
 		res.cases += 1
@@ -1336,18 +1575,23 @@ STATEMENTS: dict[str, str] = {
 	'retired_range_split / retired_range_lt_hazard': 'NOT a production site since /repo ed1a7d7 (proc_for_range transpiles the argument nodes): break_separator(pluck_func_call_arguments(callee(a, b)), ",") gives the argument texts for bracket-balanced arguments; a lone "<" in an argument (range(a << 1, n)) is not balanced, swallows the comma and the unpacking raises ValueError - the hazard the fix removed',
 	'query_any': 'DecoratorQuery.any(*paths) = the decorators whose text before the first "(" is in paths, in order; contains(*paths) = whether there is one',
 	'sep_multichar_spec / sep_multichar_rejoin / callsites_delim_guard': 'for a multi-character delimiter that can not overlap itself (first character does not recur, no bracket/quote character: ", ", ": ", " ="; not " = " or "::"): the exact pieces for every fragment and the rejoin law d.join(segments) = text, pieces = stripped segments; every delimiter literal of the generated call-site table satisfies the guard (decide)',
+	'query_any_args': 'DecoratorQuery.any_args(subject) (production: deco_ignore.any_args(inherit) in class/_inherits.j2) = the decorators whose text between the first "(" and the last character contains subject, in order; for path(args) that text is args',
+	'quoted_literal / quoted_simple_string': 'is_quoted_literal(q + body + q, q) for a one-character quote = every quote character of the body stands behind a backslash (one in the first position never does); the loop never exhausts its fuel; the simple strings of the fragment grammar are quoted literals',
+	'var_type_pattern / var_type_origin_plain / var_type_origin_const': 'Param.var_type_origin of [const ␠+] base [<…>] [*|&] = base for every non-empty base over [A-Za-z0-9_:] and every template-argument text: on the regex branch the GENERATED term of Param.VarType (var_type_pattern ties the proof to it) run by the backtracking matcher - the optional group takes const and all white space / is skipped, group 2 is the longest name run - and on the split("<")[0] branch',
 	'sep_multichar_rejoin_counterexample': 'for a multi-character delimiter the rejoin law is false when occurrences overlap: break_separator("a:::b", "::") = ["a", "", "b"]',
 }
 
 
 def translate(ctx: Ctx) -> tuple[bool, str]:
 	try:
-		from translate import gen_block_callsites, gen_block_pairs
+		from translate import gen_block_callsites, gen_block_pairs, gen_c08_regex
 		ctx.generated_tables.extend(gen_block_pairs.generate())
 		ctx.generated_tables.extend(gen_block_callsites.generate())
+		# Param.VarType (var_type_origin): the compiled pattern as a term of Tranp.Regex.Re; theorem var_type_pattern pins its shape
+		ctx.generated_tables.extend(gen_c08_regex.generate())
 		return True, ''
 	except Exception as e:  # noqa: BLE001
-		return False, f'translate (gen_block_pairs / gen_block_callsites): {type(e).__name__}: {e}'
+		return False, f'translate (gen_block_pairs / gen_block_callsites / gen_c08_regex): {type(e).__name__}: {e}'
 
 
 def cap_findings(searches: list[SearchResult]) -> None:
@@ -1378,21 +1622,23 @@ def run(ctx: Ctx) -> int:
 			stream_fragments(ctx, 'block-malformed', 'malformed', ctx.scale(4000, 30000)),
 			stream_callers(ctx, ctx.scale(3000, 30000)),
 			stream_dictlike(ctx, ctx.scale(3000, 30000)),
+			stream_view(ctx, ctx.scale(3000, 30000)),
 		]
 	with ctx.timed('search'):
-		searches = [search_skip(ctx), search_sep(ctx), search_last(ctx), search_last_general(ctx), search_decorator(ctx), search_param(ctx), search_bracket(ctx), search_pair(ctx), search_callers(ctx), search_query(ctx)]
+		searches = [search_skip(ctx), search_sep(ctx), search_last(ctx), search_last_general(ctx), search_decorator(ctx), search_param(ctx), search_bracket(ctx), search_pair(ctx), search_callers(ctx), search_query(ctx), search_view(ctx)]
 	cap_findings(searches)
 	return common.finish(ctx, proof, streams, searches,
 		translate_ok=translate_ok, translate_msg=translate_msg,
 		statements=STATEMENTS,
 		partial={
-			'proved (all fragments, unbounded nesting, induction on Frag)': 'splitting = exact top-level split (hence cuts only at top-level delimiters, rejoin up to blanks, balanced pieces) for fragments with arbitrary simple strings; last bracket group of prefix+group (strings may contain the other bracket kinds and quotes); error branch; skip; decorator path/join_args/pieces and the key/value of positional and labelled pieces; parameter type/name/default for every default fragment; parse_bracket = the groups two levels deep in pre-order; the production callers (throw / dict-comprehension / pluck / indexer / is_initializer_call; the former range splitting only as a statement about the helpers); DecoratorQuery.any / contains; termination of _parse/_parse_block/_analyze_entry on every text',
+			'proved (all fragments, unbounded nesting, induction on Frag)': 'splitting = exact top-level split (hence cuts only at top-level delimiters, rejoin up to blanks, balanced pieces) for fragments with arbitrary simple strings; last bracket group of prefix+group (strings may contain the other bracket kinds and quotes); error branch; skip; decorator path/join_args/pieces and the key/value of positional and labelled pieces; parameter type/name/default for every default fragment; parse_bracket = the groups two levels deep in pre-order; the production callers (throw / dict-comprehension / pluck / indexer / is_initializer_call; the former range splitting only as a statement about the helpers); DecoratorQuery.any / contains / any_args; termination of _parse/_parse_block/_analyze_entry on every text; is_quoted_literal on quote + body + quote (exact characterisation); Param.var_type_origin on [const] base [<…>] [*|&] over the generated regular expression',
 			'formerly false, proved after the repairs 3111a97 d6d867d eb33d21 f350973': 'param_unrestricted, decorator_positional, sep_spec_dirty, bracket_first/bracket_spec; the old witnesses are replayed from corpus/C18 and by the searches and must pass',
-			'correspondence + search only': 'the parse_pair law ((key, value) texts per depth on dict-like fragments with blank-free pieces, incl. directly adjacent foreign groups: structure-side oracle + stream block-dictlike; parse_pair has no caller); DecoratorHelper.match / match_args (regular expressions with caller-supplied patterns: no shipped pattern and no call site exists - the generated call-site scan finds none - so they are checked by search against CPython re only); multi-character delimiters that contain a bracket character or overlap themselves ("->", "::": correspondence only; the overlap counterexample is a theorem), empty delimiter, brackets arguments of other lengths, unbalanced text (correspondence)',
+			'correspondence + search only': 'the parse_pair law ((key, value) texts per depth on dict-like fragments with blank-free pieces, incl. directly adjacent foreign groups: structure-side oracle + stream block-dictlike; parse_pair has no caller); DecoratorHelper.match / match_args (regular expressions with caller-supplied patterns: no shipped pattern and no call site exists - the generated call-site scan finds none - so they are checked by search against CPython re only); multi-character delimiters that contain a bracket character or overlap themselves ("->", "::": correspondence only; the overlap counterexample is a theorem), empty delimiter, brackets arguments of other lengths, unbalanced text (correspondence); parse_to_formatter(…).format() (no caller: model + stream block-view + the round-trip law "dict-like text comes back with one blank behind every delimiter" by search); is_quoted_literal with multi-character or empty quotes and damaged texts, var_type_origin outside the shape (correspondence)',
 		},
 		assumptions=[
 			'fragments are rendered with the ASCII bracket/quote characters of BlockParser._all_pair (generated table; the proofs are redone when it changes)',
 			'a quoted string is "simple": it does not contain its own quote character (no escapes)',
+			'is_quoted_literal / var_type_origin / format: characters are ASCII (\\w, \\s and str.lstrip() are modelled for ASCII; the stream block-view generates ASCII only)',
 			'the `brackets` argument has exactly two characters in the theorems (other lengths: correspondence only; a third character makes _parse loop on the real code and is never generated)',
 		],
 		trusted=['Python str methods find/strip/split/join/count as modelled in Tranp/Str.lean (exercised through every op of the streams)'])
